@@ -1,6 +1,7 @@
 (* Property C02 - config versions are isolated snapshots; inputs are never
    modified.  Statements only; proofs live in Stack/ComposeHProofs.v,
-   Stack/HistoryProofs.v (on top of Copy/DeepCopyInv.v).
+   Stack/ComposeHShift.v, Stack/HistoryProofs.v (on top of Copy/DeepCopyInv.v,
+   Copy/DeepCopyShift.v).
 
    compose_h fuel fs h n0 d layers  (Stack/ComposeH.v) is the heap-level model
    of compose: deep copy of the defaults at address d, then for every layer
@@ -41,6 +42,22 @@ Theorem compose_inputs_unchanged : forall fuel fs h n0 d layers h' n' d',
   (forall a o, hget h a = Some o -> hget h' a = Some o).
 Proof. exact compose_inputs_unchanged_b. Qed.
 
+(* Two stackings of the same inputs (the second call starts where the first
+   one stopped): the second result is the first one with every address the
+   call allocated renamed by the allocator offset a |-> a + (n1 - n0) - an
+   injective renaming, so the two configs are deeply equal - the first call's
+   objects and all inputs are untouched by the second, and nothing is
+   reachable from both results. *)
+Theorem compose_deterministic : forall fuel fs h n0 d layers h1 n1 d1,
+  wf_heapb h n0 = true -> d <? n0 = true -> layers_below n0 layers = true ->
+  compose_h fuel fs h n0 d layers = Done ((h1, n1), d1) ->
+  let dl := n1 - n0 in
+  exists h2, compose_h fuel fs h1 n1 d layers = Done ((h2, n1 + dl), d1 + dl) /\
+    (forall a o, n0 <= a -> hget h1 a = Some o -> hget h2 (a + dl) = Some (map_addr_obj (fun x => x + dl) o)) /\
+    (forall a, a < n1 -> hget h2 a = hget h1 a) /\
+    (forall a, reach h2 [(RCell, d1)] a -> reach h2 [(RCell, d1 + dl)] a -> False).
+Proof. exact compose_deterministic_b. Qed.
+
 (* Over any run of Config - pristine copy of the defaults, then any sequence
    of re-stacks, sources allocating the values they report in between - no
    object is reachable from two versions, or from a version and the caller's
@@ -59,4 +76,5 @@ Proof. exact versions_pairwise_disjoint_b. Qed.
 
 Print Assumptions compose_fresh.
 Print Assumptions compose_inputs_unchanged.
+Print Assumptions compose_deterministic.
 Print Assumptions versions_pairwise_disjoint.
